@@ -13,6 +13,8 @@ LIB = {
     'stk1': 'abi <abi/4.0>,\n\ninclude <tunables/global>\n\n@{exec_path} = @{bin}/stk1\nprofile stk1 @{exec_path} {\n  include <abstractions/base>\n\n  @{exec_path} mr,\n  @{bin}/a rPx,\n  /etc/stk1 r,\n\n  include if exists <local/stk1>\n}\n',
     'stk2': 'abi <abi/4.0>,\n\ninclude <tunables/global>\n\n@{exec_path} = @{lib}/stk2\nprofile stk2 @{exec_path} {\n  include <abstractions/base>\n\n  @{exec_path} mr,\n  @{bin}/b rix,\n  /etc/stk2 w,\n  #aa:dbus own bus=system name=org.stk2\n\n  include if exists <local/stk2>\n}\n',
     'tgt1': 'abi <abi/4.0>,\n\ninclude <tunables/global>\n\n@{exec_path} = @{bin}/tgt1 @{lib}/tgt1\nprofile tgt1 @{exec_path} {\n  include <abstractions/base>\n\n  include if exists <local/tgt1>\n}\n',
+    'tgt3': 'abi <abi/4.0>,\n\ninclude <tunables/global>\n\n@{exec_path}  = @{bin}/tgt3\n@{exec_path} += @{lib}/tgt3\n@{exec_path} += /opt/tgt3/bin/tgt3\nprofile tgt3 @{exec_path} {\n  include <abstractions/base>\n\n  include if exists <local/tgt3>\n}\n',
+    'stk3': 'abi <abi/4.0>,\n\ninclude <tunables/global>\n\n@{exec_path} = @{bin}/stk3\nprofile stk3 @{exec_path} {\n  include <abstractions/base>\n\n  @{exec_path} rix,\n  @{sh_path} r,\n  /etc/stk3 r,\n\n  include if exists <local/stk3>\n}\n',
     'tgt2': 'abi <abi/4.0>,\n\ninclude <tunables/global>\n\n@{exec_path} = @{bin}/Tgt2 @{bin}/tgt2\nprofile tgt2 @{exec_path} {\n  include <abstractions/base>\n\n  include if exists <local/tgt2>\n}\n',
 }
 
@@ -28,12 +30,12 @@ def gen_profile(rng, name):
     body = ['  include <abstractions/base>', '', '  @{exec_path} mr,', '  /etc/%s r,' % name]
     r = rng.random()
     if r < 0.3:
-        args = rng.sample(['stk1', 'stk2'], rng.randint(1, 2))
+        args = rng.sample(['stk1', 'stk2', 'stk3'], rng.randint(1, 2))
         if rng.random() < 0.4:
             args = ['X'] + args
         body.append('  #aa:stack ' + ' '.join(args))
     elif r < 0.6:
-        args = rng.sample(['tgt1', 'tgt2'], rng.randint(1, 2))
+        args = rng.sample(['tgt1', 'tgt2', 'tgt3'], rng.randint(1, 2))
         if rng.random() < 0.5:
             args = [rng.choice(['P', 'U', 'p', 'PU'])] + args
         body.append('  #aa:exec ' + ' '.join(args))
